@@ -685,16 +685,18 @@ def allSome : List (Option α) → Option (List α)
 
 /-- fleet: non-empty, vehicle `k` is `v{k}`, identical capacity, start = end = the depot, departure not before
     `open`, arrival not after `close`, no other time bounds -/
+def fleetOk (vs : List DVehicle) (cap : Int) (xy : Int × Int) (lo : Int) (hi : Bound) : Bool :=
+  (vs.map (·.idx) == List.range vs.length) &&
+  vs.all (fun w => w.cap = cap && w.s = some xy && w.e = some xy &&
+            w.sE = some (.fin lo) && w.sL = none && w.eE = none && w.eL = some hi)
+
 def decodeFleet (vs : List DVehicle) : Option (Nat × Int × (Int × Int) × Int × Bound) :=
-  match vs with
-  | [] => none
-  | v :: _ =>
+  match vs.head? with
+  | none => none
+  | some v =>
     match v.s, v.sE, v.eL with
     | some xy, some (.fin lo), some hi =>
-      if vs.map (·.idx) = List.range vs.length ∧
-         vs.all (fun w => w.cap = v.cap && w.s = some xy && w.e = some xy &&
-            w.sE = some (.fin lo) && w.sL = none && w.eE = none && w.eL = some hi)
-      then some (vs.length, v.cap, xy, lo, hi) else none
+      if fleetOk vs v.cap xy lo hi then some (vs.length, v.cap, xy, lo, hi) else none
     | _, _, _ => none
 
 /-- a delivery customer (Solomon, TSPLIB): single job, one window, demand in the static delivery slot only;
